@@ -104,6 +104,8 @@ def fam_C04(tier, seed):
         _, res = _two_on_worker(b, k1, k2, **md)
         b.con("WorkLoad", res=res, intervals=ivs, kind=kind)
         ps.append(b.done())
+        if md.get("cumul") and kind == "max" and ivs in ([[0, 2, 2]], [[1, 3, 3]]) and k1 in ("F2", "V"):
+            ps[-1]["keep"] = True     # a bound that is slack for one worker still binds a cumulative worker
         if k1 == "V" and not md and ivs in ([[1, 2, 1]], [[1, 3, 2]]):
             ps[-1]["keep"] = True     # the variable task can span the whole interval (duration 3 over [1, 2) or [1, 3))
     # ResourcePeriodicallyUnavailable (horizon up to 8)
